@@ -10,6 +10,8 @@ with tempfile.TemporaryDirectory() as td:
     env = dict(os.environ)
     for k in ("FCP_CORE_VERIF", "PYTHONPATH", "FCPMC_REPO"):
         env.pop(k, None)
+    if os.path.realpath(repo) != "/repo":
+        env["PYTHONPATH"] = os.path.join(repo, "src")  # a scratch worktree: do not import /repo/src through the editable install
     p = subprocess.run(
         ["/venv/bin/python", "-m", "pytest", "-ra", "-q", "-p", "no:cacheprovider", "--timeout=900",
          "--continue-on-collection-errors", "--junitxml=" + xml],
